@@ -149,7 +149,7 @@ func chainScript(c chainCfg, pfx string, only string, bare bool) string {
 		if only != "" && only != []string{"Y", "Z"}[i] {
 			continue
 		}
-		body := fmt.Sprintf("$o = new %s(); $r = $o->m1() . \",\" . $o->m2();", cls)
+		body := fmt.Sprintf("$o = new %s(); echo \"<inst>\"; $r = $o->m1() . \",\" . $o->m2();", cls)
 		if bare {
 			fmt.Fprintf(&sb, "echo \"@@%d@@\"; %s echo \"~R~ok|\", sh($r);\n", i, body)
 		} else {
